@@ -454,19 +454,28 @@ def temporaries_scenarios():
         pass
   if bad:
     out.append(({'clause': 'temporaries-basic-unsound', 'observed': bad}, f'{bad} leaf paths wrong'))
-  # all-paths query: no id may collect paths of different objects (nothing is shared here)
-  worst = 0
+  # all-paths query on the objects the structure owns (the Temp instances; the lists handed out by
+  # flatten die during the walk, so entries under their recycled ids say nothing about any object)
+  wrong = 0
   for nrows in (1, 2, 3, 4, 8):
     for depth in (1, 2, 3):
       rws = [[10 * r + c for c in range(3)] for r in range(nrows)]
       t = c02.Temp(rws)
       for _ in range(depth):
         t = c02.Temp([[t], [c02.Temp(rws)]])
+      expect = {}
+      def walk(x, path):
+        if isinstance(x, c02.Temp):
+          expect.setdefault(id(x), []).append(path)
+          for i, row in enumerate(x.rows):
+            for j, y in enumerate(row):
+              walk(y, path + (daglish.Index(i), daglish.Index(j)))
+      walk(t, (daglish.Index(0),))
       by_id = daglish.collect_paths_by_id([t], memoizable_only=True)
-      worst = max([worst] + [len(ps) for ps in by_id.values()])
-  if worst > 1:
-    out.append(({'clause': 'temporaries-paths-conflated', 'api': 'collect_paths_by_id'},
-                f'an id collected {worst} paths although no object is shared'))
+      wrong += sum(1 for k, ps in expect.items() if sorted(map(str, by_id.get(k, []))) != sorted(map(str, ps)))
+  if wrong:
+    out.append(({'clause': 'temporaries-paths-of-owned-objects', 'api': 'collect_paths_by_id'},
+                f'{wrong} objects owned by the structure have wrong path lists'))
   def mfn(paths, value):
     return (yield)
   try:
